@@ -56,11 +56,15 @@ pub struct Timer {
 impl Timer {
     /// Create a timer that will fire immediately when inserted in the event loop
     pub fn immediate() -> Timer {
+        #[cfg(feature = "verif")]
+        use crate::verif::Instant;
         Self::from_deadline(Instant::now())
     }
 
     /// Create a timer that will fire after a given duration from now
     pub fn from_duration(duration: Duration) -> Timer {
+        #[cfg(feature = "verif")]
+        use crate::verif::Instant;
         Self::from_deadline_inner(Instant::now().checked_add(duration))
     }
 
@@ -89,6 +93,8 @@ impl Timer {
     /// If the `Timer` is currently registered in the event loop, it needs to be
     /// re-registered for this change to take effect.
     pub fn set_duration(&mut self, duration: Duration) {
+        #[cfg(feature = "verif")]
+        use crate::verif::Instant;
         self.deadline = Instant::now().checked_add(duration);
     }
 
@@ -115,6 +121,8 @@ impl EventSource for Timer {
     where
         F: FnMut(Self::Event, &mut Self::Metadata) -> Self::Ret,
     {
+        #[cfg(feature = "verif")]
+        use crate::verif::Instant;
         if let (Some(ref registration), Some(ref deadline)) = (&self.registration, &self.deadline) {
             if registration.token != token {
                 return Ok(PostAction::Continue);
@@ -254,6 +262,14 @@ impl TimerWheel {
     pub(crate) fn next_deadline(&self) -> Option<std::time::Instant> {
         self.heap.peek().map(|data| data.deadline)
     }
+
+    #[cfg(feature = "verif")]
+    pub(crate) fn verif_entries(&self) -> Vec<(std::time::Instant, usize, u32)> {
+        self.heap
+            .iter()
+            .map(|data| (data.deadline, data.token.inner.into(), data.counter))
+            .collect()
+    }
 }
 
 // trait implementations for TimeoutData
@@ -305,6 +321,8 @@ impl std::fmt::Debug for TimeoutFuture {
 impl TimeoutFuture {
     /// Create a future that resolves after a given duration
     pub fn from_duration<Data>(handle: &LoopHandle<'_, Data>, duration: Duration) -> TimeoutFuture {
+        #[cfg(feature = "verif")]
+        use crate::verif::Instant;
         Self::from_deadline_inner(handle, Instant::now().checked_add(duration))
     }
 
@@ -343,6 +361,8 @@ impl std::future::Future for TimeoutFuture {
         self: std::pin::Pin<&mut Self>,
         cx: &mut std::task::Context<'_>,
     ) -> std::task::Poll<Self::Output> {
+        #[cfg(feature = "verif")]
+        use crate::verif::Instant;
         match self.deadline {
             None => return std::task::Poll::Pending,
 
